@@ -17,6 +17,7 @@ type Frame struct {
 	defers  []deferred
 	prev    *ssa.BasicBlock
 	active  map[int]bool // loop headers (block index) whose body is being executed
+	unroll  map[int]int  // loop headers without invariants being unrolled: arrivals so far
 	id      int
 	depth   int
 	retCont func(st *State, res Val) // continuation on return
